@@ -46,6 +46,7 @@ fn route_for(host: u64, conn: u16, port: u16) -> ClientRoute {
 }
 
 pub struct WorkerRig {
+    translator: Option<Arc<ClientRoutesAddressTranslator>>,
     updates: merge_channel::Sender<MetadataUpdate>,
     state: Arc<ArcSwap<ClusterState>>,
     receivers: Vec<(u64, oneshot::Receiver<Result<(), MetadataError>>)>,
@@ -60,21 +61,34 @@ impl WorkerRig {
     /// `ClusterWorker::work()` on the current tokio runtime. `with_subscriber`: a
     /// `ClientRoutesAddressTranslator` (connection ids "1" and "2") is the client-routes subscriber.
     pub async fn spawn(initial_tag: u64, with_subscriber: bool) -> WorkerRig {
+        Self::spawn_with(initial_tag, with_subscriber, false).await
+    }
+
+    /// Like `spawn`, but with NO host filter: every node of a topology is enabled and gets a real
+    /// connection pool towards its address `127.1.<tag >> 8>.<tag & 255>:9042` (where, unless the
+    /// caller listens there, nothing does: the pool's first connection attempt is refused at once).
+    /// `apply_metadata_update` then really waits for the pools (`wait_until_all_pools_are_initialized`).
+    pub async fn spawn_accepting(initial_tag: u64, with_subscriber: bool) -> WorkerRig {
+        Self::spawn_with(initial_tag, with_subscriber, true).await
+    }
+
+    async fn spawn_with(initial_tag: u64, with_subscriber: bool, accept_all: bool) -> WorkerRig {
         let (use_keyspace_sender, use_keyspace_receiver) = tokio::sync::mpsc::channel(32);
         let (connectivity_events_sender, connectivity_events_receiver) =
             tokio::sync::mpsc::unbounded_channel();
         let (tablet_sender, tablet_receiver) = tokio::sync::mpsc::channel(TABLET_CHANNEL_SIZE);
 
-        let client_routes_subscriber: Option<Arc<dyn ClientRoutesSubscriber>> = with_subscriber
-            .then(|| {
-                let config = ClientRoutesConfig::new(vec![
-                    ClientRoutesProxy::new_with_connection_id("1".to_owned()),
-                    ClientRoutesProxy::new_with_connection_id("2".to_owned()),
-                ])
-                .unwrap();
-                Arc::new(ClientRoutesAddressTranslator::new(config, None, false))
-                    as Arc<dyn ClientRoutesSubscriber>
-            });
+        let translator: Option<Arc<ClientRoutesAddressTranslator>> = with_subscriber.then(|| {
+            let config = ClientRoutesConfig::new(vec![
+                ClientRoutesProxy::new_with_connection_id("1".to_owned()),
+                ClientRoutesProxy::new_with_connection_id("2".to_owned()),
+            ])
+            .unwrap();
+            Arc::new(ClientRoutesAddressTranslator::new(config, None, false))
+        });
+        let client_routes_subscriber: Option<Arc<dyn ClientRoutesSubscriber>> = translator
+            .as_ref()
+            .map(|t| Arc::clone(t) as Arc<dyn ClientRoutesSubscriber>);
 
         let node_config = NodeConfig {
             pool_config: PoolConfig {
@@ -89,7 +103,8 @@ impl WorkerRig {
             connectivity_events_sender,
             metrics: Metrics::new(),
         };
-        let host_filter: Option<Arc<dyn HostFilter>> = Some(Arc::new(RejectAll));
+        let host_filter: Option<Arc<dyn HostFilter>> =
+            (!accept_all).then(|| Arc::new(RejectAll) as Arc<dyn HostFilter>);
 
         let metadata = Metadata {
             peers: peers_for(initial_tag),
@@ -119,6 +134,7 @@ impl WorkerRig {
         tokio::spawn(fut);
 
         WorkerRig {
+            translator,
             updates: metadata_updates_sender,
             state: cluster_state,
             receivers: Vec::new(),
@@ -220,6 +236,20 @@ impl WorkerRig {
             .collect();
         v.sort_unstable();
         v
+    }
+
+    /// What the client-routes subscriber currently knows: (host, connection id, port) of every
+    /// route it holds, sorted; `None` = no subscriber configured.
+    pub fn subscriber_routes(&self) -> Option<Vec<(u64, u16, Option<u16>)>> {
+        self.translator.as_ref().map(|t| {
+            let mut v: Vec<(u64, u16, Option<u16>)> = t
+                .verif_known_routes()
+                .into_iter()
+                .map(|(h, c, p)| (h, c.parse().unwrap_or(0), p))
+                .collect();
+            v.sort_unstable();
+            v
+        })
     }
 
     /// Address of the published state object (changes whenever a new state is published).
